@@ -161,6 +161,41 @@ EXTRA4 = {
     "C19": "Requests before the handshake.",
 }
 
+EXTRA5 = {
+    "C01": "Dynamically numbered modules (V2-then-V1 handshake with source id 0) addressed by the id they were told.",
+    "C03": "Clients that are momentarily not writable while a message, a report or a notice is due to them; hundreds of notice subscribers resetting at the same instant.",
+    "C04": "Project files that list the core definition files explicitly.",
+    "C06": "Dynamic-id holders in every table order relative to their ids across turns of the cursor; a second connect() with other options on a connected Client.",
+    "C07": "A report subscriber found dead while a multi-part report goes out.",
+    "C08": "select.poll is part of the virtual network (conformance-checked).",
+    "C09": "Array-to-array copies between differently named fields (other message, same message).",
+    "C10": "Decode, overwrite the decoded object, decode the same representation again.",
+    "C12": "A sixteen-file import chain.",
+    "C13": "Spellings of one machine type are edits; the shipped core Python output carries the hashes of the core definition file.",
+    "C14": "A logger that goes away while the manager waits for it to become writable.",
+    "C15": "Very small / very large float constants referenced by other expressions.",
+    "C16": "Large reserved blocks in several files of one closure.",
+    "C18": "Manager logging at INFO / WARNING (its records are traffic); a second manager in one process.",
+    "C19": "255-300 (thorough: up to 1024) subscription requests of one module, each acknowledged and copied.",
+}
+
+EXTRA6 = {
+    "C02": "Every type is also published addressed to the client's own module id.",
+    "C04": "Structs of one scalar; fields named like the generated class attributes; names as long as the emitters' columns; names containing the emitters' prefixes; one name in two tables (open finding: host id vs constant in the Python output).",
+    "C05": "Requests naming ids no message can have, and core-typed frames of another layout, in the control burst.",
+    "C07": "The leaver itself not writable; all dynamic ids held and one holder leaves.",
+    "C08": "Socket timeouts are part of the virtual network (conformance 42 scenarios / 396 operations); reads after sends with a timeout / a destination.",
+    "C09": "The same sequence object assigned again after its owner changed it.",
+    "C10": "Non-zero remaining_bytes / is_dynamic; definitions whose fields are called header and data.",
+    "C11": "Layout options written in imported files; structs whose size is not their alignment reached through aliases.",
+    "C12": "Aliases of aliases in the collision pairs; a project that lists the core files itself.",
+    "C13": "Renames with letters outside ASCII; application classes derived from generated ones on the wire.",
+    "C15": "An expression over fourteen constants; files of one name in different directories.",
+    "C16": "Long string constants (URL, sentence, text with colons).",
+    "C17": "A data set still idle at the first flush of a second recording.",
+    "C19": "Every kind of request after 1-3 dropped deliveries to the requester.",
+}
+
 ALL = [f"C{i:02d}" for i in range(1, 20)]
 NOT_YET = "check not built yet in this round (planned; see DESIGN.md section 4)"
 
@@ -178,7 +213,7 @@ def main():
             "evidence_file": f"/verif/evidence/{pid}.json",
             "replay_cmd_template": "./vcheck replay {path}",
             "engine": c["engine"],
-            "level_claimed": {"category": c["level"], "text": (c["text"] + " " + EXTRA.get(pid, "") + " " + EXTRA2.get(pid, "") + " " + EXTRA3.get(pid, "") + " " + EXTRA4.get(pid, "")).strip(), "design_ref": c["ref"]},
+            "level_claimed": {"category": c["level"], "text": (c["text"] + " " + EXTRA.get(pid, "") + " " + EXTRA2.get(pid, "") + " " + EXTRA3.get(pid, "") + " " + EXTRA4.get(pid, "") + " " + EXTRA5.get(pid, "") + " " + EXTRA6.get(pid, "")).strip(), "design_ref": c["ref"]},
             "level_note": c["note"],
             "technique": c["technique"],
         })
